@@ -110,7 +110,7 @@ PROPS['C01'] = dict(modules=['Hagall.Props.C01', 'Hagall.Props.C01Conc'], profil
                     topics=slice_of(ALL_TOPICS + ['disconnect'], outs=RELAYS | {'sessionState', 'vikjaState', 'odalState', 'compAddBcast', 'compDeleteBcast', 'compUpdateBcast'}))
 
 PROPS['C08'] = dict(modules=['Hagall.Props.C08'], profiles=['malformed', 'mixed', 'module', 'latency'], n=(160, 3000), focus=None,
-                    tools=['drive', 'extract', 'wire', 'grid'], extra=['wire_harness', 'conc_explore'],
+                    tools=['drive', 'extract', 'wire', 'grid', 'receipts'], extra=['wire_harness', 'conc_explore', 'grid_harness', 'receipts_harness'],
                     topics=slice_of(ALL_TOPICS + ['disconnect'], kinds=['outcome', 'state', 'gauge'], pred=lambda d: d.get('kind') != 'delivery'),
                     trusted=['go/cmd/wire (wire-level scenarios, end-state observers)', 'timing: scenario time limits are generous multiples of the configured idle timeout'])
 
